@@ -9,8 +9,11 @@
                               c.label__l to the NAME k, or that key is unmapped, the channel unconnected
                               and k = c.label__l
      reachable st             st = the state after ANY history (OAdd/ORemove/OConnect/ODisconnect/
-                              ODisconnectAll/OSetMap/OAssign/OWConnect/ORun) on a fresh Workflow built
-                              with ANY pair of accepted constructor maps
+                              ODisconnectAll/OSetMap/OAssign/OWConnect/ORun, and OReadd = a removed node
+                              object comes back under any label, ORelabel = add_child(child, label=new),
+                              OReplace = replace_child by a fresh or a removed node) on a fresh Workflow
+                              built with ANY pair of accepted constructor maps.  Keys are always formed
+                              from the child's CURRENT label: exposes reads c_label of the state at hand.
      wfs st                   the structural invariant of reachable states *)
 From PW Require Import Base WfIO WfIOProofs.
 Open Scope string_scope.
@@ -195,3 +198,13 @@ Proof.
   - intros c Hc. vm_compute in Hc. destruct Hc as [<-|[<-|[]]]; reflexivity.
   - vm_compute. repeat split; reflexivity.
 Qed.
+
+(* keys follow the child's CURRENT label: the node created as "a" (channels 0, 1) is removed, comes
+   back as "c", is relabelled "m", then swapped out by replace_child and re-added as "spare" *)
+Example C15_keys_follow_current_label :
+  let h1 := [OAdd 0 "a"; OAdd 0 "b"; ORemove "a"; OReadd "a" (Some "c")] in
+  build_io (hist h1) DIn = Some [("b__x", 2); ("c__x", 0)] /\
+  build_io (hist (h1 ++ [ORelabel "c" "m"])) DOut = Some [("b__y", 3); ("m__y", 1)] /\
+  build_io (hist (h1 ++ [OReplace "c" None; OReadd "spare" None])) DIn
+    = Some [("b__x", 2); ("c__x", 4); ("spare__x", 0)].
+Proof. vm_compute. repeat split; reflexivity. Qed.
